@@ -1062,12 +1062,23 @@ private:
       if (m_is_smashed && !o.m_is_smashed) {
         array_state right(o);
         right.smash_array(v, get_element_sz(), cm_right, dom_right);
+        if (!right.m_is_smashed) {
+          // smash_array can decline (no cells, too many cells, first
+          // cell not at offset 0, ...). The element sizes of a
+          // smashed and a non-smashed state cannot be met (the
+          // latter is the constant 0). Any of the two operands is a
+          // sound result for the meet: keep the smashed one.
+          return *this;
+        }
         return array_state(m_is_smashed & right.m_is_smashed,
                            m_element_sz & right.m_element_sz,
                            m_offset_map & right.m_offset_map);
       } else if (!m_is_smashed && o.m_is_smashed) {
         array_state left(*this);
         left.smash_array(v, o.get_element_sz(), cm_left, dom_left);
+        if (!left.m_is_smashed) {
+          return o;
+        }
         return array_state(left.m_is_smashed & o.m_is_smashed,
                            left.m_element_sz & o.m_element_sz,
                            left.m_offset_map & o.m_offset_map);
